@@ -908,6 +908,7 @@ func (self *Pipestance) Lock() error {
 	} else {
 		f.Close()
 	}
+	verifEvent("LockCreated", "path", self.GetPath())
 	util.RegisterSignalHandler(self)
 	if err := self.metadata.WriteTime(Lock); err != nil {
 		util.LogError(err, "runtime", "Error writing pipestance lock file.")
